@@ -566,6 +566,9 @@ func (pe *provEnv) reachingDef(defs []ast.Node, pos token.Pos) ast.Node {
 
 func (pe *provEnv) isParam(v *types.Var) bool {
 	sig := pe.pk.TypesInfo.Defs[pe.fd.Name].(*types.Func).Type().(*types.Signature)
+	if sig.Recv() == v {
+		return true
+	}
 	for i := 0; i < sig.Params().Len(); i++ {
 		if sig.Params().At(i) == v {
 			return true
